@@ -32,6 +32,10 @@ def families() -> list[list[str]]:
     return common.group_dialects(sig)
 
 
+def _has_backslash_escapes(d: str) -> bool:
+    return "\\" in common.core_tables(d)["string_escapes"]
+
+
 def obligations(tier: str, seed: int) -> tuple[list[Obl], dict]:
     groups = common.group_dialects(common.quote_signature)
     fams = families()
@@ -51,13 +55,15 @@ def obligations(tier: str, seed: int) -> tuple[list[Obl], dict]:
     if tier == "quick":
         for g in groups:
             add(g[0], g, "string", 0, 1, "both", 90)
-            add(g[0], g, "ident", 1, 1, "both", 120)
         for i, f in enumerate(fams):
+            add(f[0], f, "ident", 1, 1, "both", 120)
             add(f[0], f, "raw", 0, 1, "both", 90)
-            add(f[0], f, "national", 0, 1, "both", 90)
+            if i % 2 == seed % 2:
+                add(f[0], f, "national", 0, 1, "both", 90)
             if i % 4 == rot:
                 add(f[0], f, "string", 2, 2, False, 150)
-                add(f[0], f, "comment", 1, 1, False, 200, pt=30.0)
+            if i % 13 == seed % 13:
+                add(f[0], f, "comment", 1, 1, False, 240, pt=30.0)
     else:
         for g in groups:
             add(g[0], g, "string", 0, 1, "both", 200)
@@ -66,11 +72,15 @@ def obligations(tier: str, seed: int) -> tuple[list[Obl], dict]:
             add(g[0], g, "national", 0, 1, "both", 200)
         for f in fams:
             for pretty in (False, True):
-                add(f[0], f, "string", 2, 2, pretty, 900)
-                add(f[0], f, "ident", 2, 2, pretty, 900)
-                add(f[0], f, "raw", 2, 2, pretty, 900)
-                add(f[0], f, "comment", 1, 1, pretty, 1200, pt=30.0)
-            add(f[0], f, "comment", 2, 2, False, 900, pt=30.0)
+                add(f[0], f, "string", 2, 2, pretty, 300)
+                add(f[0], f, "raw", 2, 2, pretty, 300)
+                add(f[0], f, "comment", 1, 1, pretty, 420, pt=30.0)
+            add(f[0], f, "ident", 2, 2, False, 600)
+            if _has_backslash_escapes(f[0]):
+                add(f[0], f, "string", 3, 3, False, 1200)
+        for i, f in enumerate(fams):
+            if i % 13 == seed % 13:
+                add(f[0], f, "comment", 2, 2, False, 1200, pt=30.0)
     bounds = {
         "value": "every Unicode string v with minlen <= len(v) <= maxlen (per obligation, see samples[*].desc.len)",
         "groups": len(groups), "families": len(fams),
